@@ -19,7 +19,7 @@ import (
 )
 
 func TestMain(m *testing.M) {
-	vh.Rule("fault enumeration: responses from the C02 grammar (<= 400 bytes, cut into 1..5 packets) are delivered through the real reader goroutine over a scripted transport that starts failing after byte offset k of the TCP stream, for EVERY k in 0..len (exhaustive per response), x failure kind {EOF forever, EOF together with the last bytes, an error wrapping io.EOF (a tunnelled transport), connection reset error, timeout-style error} x packet type {RESPONSE, NORMAL} x PacketReadTimeout {0 s, 1 s (sampled in quick)}; plus write-side faults (Write returns an error or a short count at packet j of a multi-packet request). Oracle: the consumer receives exactly the packages that lie entirely inside the completely received packets (a prefix of the delivery model, values equal), a synthetic final DONE only if the EOM packet arrived completely, then an error within PacketReadTimeout + 2 s; NextPackage never blocks beyond that; failing writes make SendPackage return an error without panic. Non-trivial: 0 < k < len and k falls inside a packet (header or body); distinct by (response, packetisation, k, kind, timeout)")
+	vh.Rule("fault enumeration: responses from the C02 grammar (<= 400 bytes, cut into 1..5 packets) are delivered through the real reader goroutine over a scripted transport that starts failing after byte offset k of the TCP stream, for EVERY k in 0..len (exhaustive per response), x failure kind {EOF forever, EOF together with the last bytes, an error wrapping io.EOF (a tunnelled transport), connection reset error, timeout-style error} x packet type {RESPONSE, NORMAL} x PacketReadTimeout {0 s, 1 s (sampled in quick), 5 s with the end inside a packet body (3..13 s thorough)}; plus write-side faults (Write returns an error or a short count at packet j of a multi-packet request). Oracle: the consumer receives exactly the packages that lie entirely inside the completely received packets (a prefix of the delivery model, values equal), a synthetic final DONE only if the EOM packet arrived completely, then an error within PacketReadTimeout + 2 s; NextPackage never blocks beyond that; failing writes make SendPackage return an error without panic. Non-trivial: 0 < k < len and k falls inside a packet (header or body); distinct by (response, packetisation, k, kind, timeout)")
 	vh.Assume("a silent stall is not a transport failure (no deadline is ever set on the socket) and is out of scope; packages are collected after the failure has been reported (the race between a queued package and a queued error inside NextPackage's select is schedule-dependent and documented by the library)")
 	vh.Rule("also: 11..40 further receive calls after the failure, each answered with an error within the bound")
 	vh.Rule("also: the consumer that waits (wait=true) collects the buffered packages of the complete packets before the failure")
@@ -410,6 +410,48 @@ func TestWithReadTimeout(t *testing.T) {
 		return c14Case{Pkgs: ps, Cuts: cuts, K: rapid.IntRange(0, total).Draw(rt, "k"), Kind: rapid.SampledFrom([]string{"eof", "eof", "reset", "timeout", "wrapped-eof"}).Draw(rt, "kind"), Timeout: 1, Normal: rapid.Bool().Draw(rt, "normal")}
 	}
 	vh.Check(t, "TestWithReadTimeout", vh.N(12, 300), gen, runCase)
+}
+
+// A read timeout of several seconds, and the transport ending INSIDE a packet body (the only place
+// where the library waits for more bytes before it gives up): the error is due no later than the
+// timeout (+ 2 s for the machine), however long the timeout is. A waiting scheme whose overshoot
+// grows with the timeout (back-off, coarse polling) passes the 1 s sample above and fails here.
+// The cases run side by side, so the test costs one timeout of wall time.
+func TestLongReadTimeout(t *testing.T) {
+	timeouts := []int{5}
+	if vh.Thorough() {
+		timeouts = []int{3, 5, 6, 9, 13}
+	}
+	// one enumerated case = the whole batch, its members run side by side
+	runBatch := func(cs []c14Case) *vh.Failure {
+		out := make(chan *vh.Failure, len(cs))
+		for _, c := range cs {
+			go func(c c14Case) { out <- runCase(c) }(c)
+		}
+		var first *vh.Failure
+		for range cs {
+			if f := <-out; f != nil && first == nil {
+				first = f
+			}
+		}
+		return first
+	}
+	e := vh.NewEnum(t, "TestLongReadTimeout", runBatch)
+	if e.Skip() {
+		return
+	}
+	var cases []c14Case
+	for i, to := range timeouts {
+		for j, kind := range []string{"eof", "wrapped-eof"} {
+			ps := []rc.P{{Done: &rc.Done{Tok: rc.TokDone, Status: rc.DoneMore}}, {Done: &rc.Done{Tok: rc.TokDone, Status: rc.DoneFinal}}}
+			// two packets of 9 body bytes; the second one's header and 1..8 of its body bytes arrive
+			cases = append(cases, c14Case{Pkgs: ps, Cuts: []int{9}, K: 17 + 8 + 1 + (i*3+j*5)%8, Kind: kind, Timeout: to, Normal: (i+j)%2 == 1})
+		}
+	}
+	if !e.Do(cases) {
+		return
+	}
+	e.Done("read timeouts of several seconds, transport ending inside a packet body")
 }
 
 // ---- write side
